@@ -246,15 +246,7 @@ func newE2E(carrier string, relay func(target string) string) (*e2e, error) {
 	return w, nil
 }
 
-func freeUDPPort() int {
-	c, err := net.ListenPacket("udp", "127.0.0.1:0")
-	if err != nil {
-		panic(err)
-	}
-	p := c.LocalAddr().(*net.UDPAddr).Port
-	c.Close()
-	return p
-}
+func freeUDPPort() int { return freePort() }
 
 // dialApp opens one logical connection as the local application does, and returns it with the target's end.
 func (w *e2e) dialApp(d time.Duration) (net.Conn, net.Conn, error) {
